@@ -376,8 +376,12 @@ def gen_script(rng, mode="local", size=None):
     nh_guess = 0
     reacts = ["noop", "noop", "suspend", "suspend", "suspend", "panic"] if mode == "local" else ["noop", "suspend", "suspend"]
     size = size or rng.randrange(8, 40)
+    prepared = []
     for _ in range(size):
         x = rng.random()
+        if prepared and rng.random() < 0.35:
+            s.append(prepared.pop(0))
+            continue
         if nb == 0 or (x < 0.14 and len(live) < 5):
             if mode == "sim" and rng.random() < 0.35:
                 s.append(["build", 2, "noop", rand_cond(rng)])      # Barrier<FsCorruption>
@@ -390,7 +394,14 @@ def gen_script(rng, mode="local", size=None):
                 s.append(["corrupt_read", rng.randrange(nsrc), rng.randrange(8)])
                 continue
             kind = "trigger" if (rng.random() < 0.8 or mode == "sim") else "trigger_noop"
-            s.append([kind, rng.randrange(nsrc), rng.choice([0, 0, 1]), rng.randrange(8)])
+            cmd = [kind, rng.randrange(nsrc), rng.choice([0, 0, 1]), rng.randrange(8)]
+            if kind == "trigger" and rng.random() < 0.2:
+                # the future of the call is built now and awaited later: barriers created or dropped in between
+                # decide (an async fn looks nothing up before it is polled; seed C20-B8)
+                prepared.append(cmd)
+                s.append(["prepare"] + cmd[1:])
+                continue
+            s.append(cmd)
         elif x < 0.78:
             b = rng.choice(live) if live and rng.random() < 0.9 else rng.randrange(nb)
             s.append(["wait", b])
